@@ -408,6 +408,8 @@ class Bus (objects.DBusObject):
                 return client.NAME_ALREADY_OWNER
             else:
                 if replace_existing and owner.busNames[name]:
+                    if caller in queue:
+                        queue.remove(caller)
                     del queue[0]
                     queue.insert(0, caller)
                     del owner.busNames[name]
@@ -417,9 +419,12 @@ class Bus (objects.DBusObject):
                     return client.NAME_ACQUIRED
                 else:
                     if do_not_queue:
+                        if caller in queue:
+                            queue.remove(caller)
                         return client.NAME_IN_USE
 
-                    queue.append(caller)
+                    if caller not in queue:
+                        queue.append(caller)
                     caller.busNames[name] = allow_replacement
 
                     return client.NAME_IN_QUEUE
